@@ -37,3 +37,28 @@ Proof.
   rewrite (nth_indep (map _ mapping) false ((fun j => nth j (nth i Z []) false) 0%nat)) by (rewrite map_length; exact Hq).
   rewrite (map_nth (fun j => nth j (nth i Z []) false) mapping 0%nat). reflexivity.
 Qed.
+
+(* KernelShap on an additive score that puts no weight outside a region R: every position whose segment contains no
+   region position receives exactly 0 (in exact arithmetic; the implementation's float64 least squares gives ~1e-16),
+   under the hypotheses of C07_kshap_exact (full-rank drawn design, the estimator returns a least-squares minimiser) *)
+Theorem kshap_zero_outside score b wv fit bs nb k ref x t mapping Z (R : nat -> bool) q :
+  additive (kind_size k) score b wv -> bs_ok bs nb -> lime_ok k ref x mapping ->
+  (forall z, In z Z -> length z = num_features mapping) ->
+  design_injective (num_features mapping) Z ->
+  (forall y, exists b0, ls_minimiser (num_features mapping) Z y (fit Z y (map (fun _ => 0) Z)) b0) ->
+  (forall p, (p < kind_size k)%nat -> R (p / kind_chan k)%nat = false -> nthq (wv t) p = 0) ->
+  (q < length mapping)%nat ->
+  (forall p, (p < length mapping)%nat -> nth p mapping 0%nat = nth q mapping 0%nat -> R p = false) ->
+  nthq (tr_expl (lime_one score (fun _ _ _ => 0) fit (eff_bs bs nb) k ref x t mapping Z)) q = 0.
+Proof.
+  intros Hadd Hbs Hok Hlen Hinj Hfit Hw Hq Hseg.
+  destruct (kshap_exact score b wv fit bs nb k ref x t mapping Z Hadd Hbs Hok Hlen Hinj Hfit) as (_ & -> & _).
+  unfold shapley_expl. rewrite (nthq_map _ _ 0%nat) by exact Hq. unfold delta.
+  rewrite (qsum_map_ext _ (fun _ => 0)); [apply qsum_zero|].
+  intros p Hp. apply in_seq in Hp. destruct (Nat.eqb (seg_of k mapping p) (nth q mapping 0%nat)) eqn:E; [|reflexivity].
+  apply Nat.eqb_eq in E. unfold seg_of in E.
+  destruct Hok as (Hc & _ & _ & Hm). unfold kind_ok in Hc.
+  assert (Hpc : (p / kind_chan k < length mapping)%nat).
+  { rewrite Hm. apply Nat.div_lt_upper_bound; [lia|]. unfold kind_size in Hp. lia. }
+  rewrite (Hw p) by (try lia; apply (Hseg _ Hpc E)). ring.
+Qed.
